@@ -241,9 +241,101 @@ def diff_sweep(res: Result) -> dict[str, Any]:
             "named_first_cause_checks": sum(o["named"] for o in outs)}
 
 
+def interrupt_sweep(res: Result) -> int:
+    """Every rejecting answer of the connect phase x every way the caller or the connection can be interrupted in the very same loop turn:
+    finish_connection must still end with an error from the library's hierarchy (or the cancellation the caller asked for)."""
+    import asyncio
+
+    from aioesphomeapi.core import APIConnectionError
+
+    from ..world import ConnWorld
+
+    n = 0
+    answers = ("bad-name", "bad-version", "bad-password", "wrong-psk", "error-frame", "enc-marker", "garbage", "eof")
+    interrupts = ("none", "cancel-same-turn", "cancel-before", "cancel-next-turn", "force-same-turn", "disc-same-turn", "eof-same-turn")
+    for noise in (True, False):
+        for ans in answers:
+            if ans in ("wrong-psk", "error-frame") and not noise:
+                continue
+            if ans == "enc-marker" and noise:
+                continue
+            for intr in interrupts:
+                for login in (True, False):
+                    kw: dict[str, Any] = {"noise": noise, "login": login, "expected_name": "dev"}
+                    if ans == "bad-name":
+                        kw["device_name"] = "other"
+                    if ans == "wrong-psk":
+                        kw["device_psk"] = b"\x07" * 32
+                    w = ConnWorld(**kw)
+                    try:
+                        w.do_start()
+                        w.do_tcp_ok()
+                        w.do_finish_call()
+                        s = w.sock
+                        assert s is not None
+                        if ans == "eof":
+                            data = None
+                        elif ans == "enc-marker":
+                            data = b"\x01\x00\x00"
+                        elif ans == "garbage":
+                            data = b"\x7f\x7f\x7fgarbage" if not noise else b"\x00\x00\x01x"
+                        elif ans == "error-frame":
+                            from .. import noise_ref
+
+                            assert w.ndev is not None
+                            w._feed_noise(s)
+                            data = w.ndev.hello_frame() + noise_ref.outer(b"\x01Handshake MAC failure")
+                        else:
+                            data = w.noise_handshake_bytes() if noise else b""
+                            if not (noise and ans in ("bad-name", "wrong-psk")):
+                                hello = w.hello_resp(major=3) if ans == "bad-version" else w.hello_resp()
+                                data += w.dframe(hello) + w.dframe(w.connect_resp(invalid=(ans == "bad-password")))
+                        if intr == "cancel-before":
+                            w.cancel("finish")
+                        if data is None:
+                            w.io_eof(s)
+                        else:
+                            w.io_chunk(s, data)
+                        w.step()
+                        if intr == "cancel-same-turn":
+                            w.cancel("finish")
+                        elif intr == "force-same-turn":
+                            w.conn.force_disconnect()
+                        elif intr == "disc-same-turn":
+                            w.spawn("disc", w.conn.disconnect)
+                        elif intr == "eof-same-turn" and not s.closed:
+                            w.io_eof(s)
+                        elif intr == "cancel-next-turn":
+                            w.step()
+                            if w.pending("finish"):
+                                w.cancel("finish")
+                        w.drain()
+                        w.run_timers(w.loop.time() + 100.0)
+                        n += 1
+                        r = w.results.get("finish")
+                        key = f"interrupt:{'noise' if noise else 'plain'}:{ans}:{intr}"
+                        d = {"noise": noise, "answer": ans, "interrupt": intr, "login": login}
+                        if r is None:
+                            res.add(key + ":hang", f"C09:hang:finish_connection never ended ({d})", d)
+                        elif r[0] == "ok":
+                            if ans not in ("bad-password",) or login:
+                                res.add(key + ":ok", f"C09:unclassified:finish_connection succeeded although the device answered {ans} ({d})", d)
+                        elif r[0] == "cancelled":
+                            if not intr.startswith("cancel"):
+                                res.add(key + ":cancelled", f"C09:unclassified:finish_connection ended cancelled although nobody cancelled it ({d})", d)
+                        elif not isinstance(r[1], (APIConnectionError, asyncio.CancelledError)):
+                            res.add(f"interrupt:{'noise' if noise else 'plain'}:{ans}:{intr}:{type(r[1]).__name__}",
+                                    f"C09:unclassified:finish_connection raised {type(r[1]).__name__}: {r[1]} - device answered {ans}, "
+                                    f"interrupt {intr} ({d})", d)
+                    finally:
+                        w.close()
+    return n
+
+
 def run(tier: str, seed: int) -> Result:
     res = Result("C09", "fault_enumeration")
     diff = diff_sweep(res)
+    diff["interrupt_sweep_runs"] = interrupt_sweep(res)
     total = Stats()
     cfgs: list[tuple[bool, str, tuple[str, ...], int, int]] = []
     q = tier == "quick"
@@ -301,7 +393,17 @@ def run(tier: str, seed: int) -> Result:
     return res
 
 
+def _replay_interrupt(rp: dict[str, Any]) -> bool:
+    res = Result("C09", "fault_enumeration")
+    interrupt_sweep(res)
+    bad = [v for v in res.violations if v.key == rp["key"]]
+    print(rp["key"], "->", [v.clause for v in bad] or "holds")
+    return not bad
+
+
 def replay(rp: dict[str, Any]) -> bool:
+    if str(rp.get("key", "")).startswith("interrupt:"):
+        return _replay_interrupt(rp)
     d = rp["detail"]
     if d.get("harness") == "c09-diff":
         cfg = (d["cfg"][0], d["cfg"][1], tuple(d["cfg"][2]))
